@@ -82,9 +82,11 @@ Definition parse_bulk (d : bytes) : outcome :=
       if (len =? -1)%Z then POk (Bulk None) c
       else if ((len <? 0) || (MAX_BULK_STRING_SIZE <? len))%Z then PErr BadBulkLen
       else
-        let n := Z.to_nat len in
-        if (length d <? c + n + 2)%nat then PNeedMore
+        (* data.len() < consumed + length + 2, compared in Z: a declared length is never turned
+           into a unary number unless the data really is that long *)
+        if (Z.of_nat (length d) <? Z.of_nat c + len + 2)%Z then PNeedMore
         else
+          let n := Z.to_nat len in
           (* &data[consumed..consumed + length]: in bounds by the test above *)
           let s := firstn n (skipn c d) in
           if utf8_valid s then POk (Bulk (Some s)) (c + n + 2)%nat else PErr BadUtf8
